@@ -1,7 +1,7 @@
 SPECIFICATION TraceSpec
 CONSTANTS
-  MaxN = 12
-  KeyIds = {"1", "2", "3", "4", "5"}
+  MaxN = 16
+  KeyIds = {"1", "2", "3", "4", "5", "6", "7", "8"}
 CONSTRAINT HWM
 INVARIANTS NoOverlap EContractOK
 POSTCONDITION Accepted
